@@ -163,24 +163,63 @@ def unjson(x):
     return x
 
 
+def _child(spec, conn):
+    try:
+        conn.send(run_spec(spec))
+    except BaseException as e:  # noqa
+        try:
+            conn.send({"name": spec.name, "status": "error", "message": repr(e), "cex": None, "twin": None,
+                       "bound": spec.bound, "meta": spec.meta, "secs": 0.0})
+        except Exception:
+            pass
+    finally:
+        conn.close()
+
+
 def run_all(specs: List[Spec], procs: int = 16) -> List[Dict[str, Any]]:
-    """Each obligation in its own forked child of a pool (fresh pool worker per task keeps
-    state such as interned Vars / caches from leaking between obligations)."""
+    """Each obligation runs in its own forked process (state such as interned Vars / caches cannot leak
+    between obligations) under a hard deadline: a worker that does not answer in time is killed and the
+    obligation is INCONCLUSIVE."""
     import multiprocessing as mp
 
     if not specs:
         return []
     env.setup_process_env()
-    ctx = mp.get_context("forkserver" if False else "fork")
-    # import basilisp once in the parent so forks are warm
-    _init_worker()
-    with ctx.Pool(min(procs, len(specs)), maxtasksperchild=1) as pool:
-        asyncs = [(s, pool.apply_async(run_spec, (s,))) for s in specs]
-        res = []
-        for s, a in asyncs:
-            try:
-                res.append(a.get(timeout=s.timeout * 3 + 120))
-            except Exception as e:
-                res.append({"name": s.name, "status": "unknown", "message": f"worker failed/timeout: {e!r}",
-                            "cex": None, "twin": None, "bound": s.bound, "meta": s.meta, "secs": s.timeout * 3})
-        return res
+    ctx = mp.get_context("fork")
+    _init_worker()  # import basilisp once in the parent so forks are warm
+    results: Dict[int, Dict[str, Any]] = {}
+    pending = list(enumerate(specs))
+    running = {}  # idx -> (proc, conn, deadline, spec)
+    while pending or running:
+        while pending and len(running) < procs:
+            idx, sp = pending.pop(0)
+            parent, child = ctx.Pipe(duplex=False)
+            pr = ctx.Process(target=_child, args=(sp, child), daemon=True)
+            pr.start()
+            child.close()
+            running[idx] = (pr, parent, time.time() + sp.timeout * 2.2 + 45, sp)
+        done = []
+        for idx, (pr, conn, deadline, sp) in running.items():
+            if conn.poll(0):
+                try:
+                    results[idx] = conn.recv()
+                except EOFError:
+                    results[idx] = {"name": sp.name, "status": "unknown", "message": "worker died", "cex": None, "twin": None,
+                                    "bound": sp.bound, "meta": sp.meta, "secs": 0.0}
+                done.append(idx)
+            elif not pr.is_alive():
+                results[idx] = {"name": sp.name, "status": "unknown", "message": f"worker exited with {pr.exitcode}", "cex": None,
+                                "twin": None, "bound": sp.bound, "meta": sp.meta, "secs": 0.0}
+                done.append(idx)
+            elif time.time() > deadline:
+                pr.kill()
+                results[idx] = {"name": sp.name, "status": "unknown", "message": "hard deadline exceeded (worker killed)", "cex": None,
+                                "twin": None, "bound": sp.bound, "meta": sp.meta, "secs": sp.timeout * 2.2 + 45}
+                done.append(idx)
+        for idx in done:
+            pr, conn, _, _ = running.pop(idx)
+            conn.close()
+            pr.join(1)
+        if not done:
+            time.sleep(0.05)
+    return [results[i] for i in range(len(specs))]
